@@ -383,7 +383,7 @@ def stream_rest(ctx, w):
                     rel = [m for m in base['members'] if m['res'] == r['id'] and m['member'] == a]
                     kind = 'accepted-member-can-reshare' if any(m['status'] == 'accepted' for m in rel) \
                         else 'share-by-non-owner'
-                    ctx.violation('POST %s as %s (not the owner of the private workflow %s) creates a share for %s'
+                    ctx.violation('POST %s as %s (not the owner of the workflow %s) creates a share for %s'
                                   % ('/v2/workflows/<id>/members', actor, r['n'], new),
                                   {'stream': 'rest', 'op': 'share', 'actor': actor, 'workflow': r, 'new_member': new,
                                    'status': resp.status_int, 'follow_up': facts},
